@@ -27,7 +27,7 @@ CHECKS["C09"] = dict(
 SNAPNOTE = 'Trusted: TLC; exact projection of the synthetic dyadic grids onto the lattice (asserted per record); the TLA+ oracle Grid!Route (cross-checked against brute force in C02). Bounded: windows of 2-10 pixels, rings up to 14-32 vertices, up to 3 tile matrices.'
 CHECKS["C01"] = dict(
     category="model_checking", design_ref="DESIGN.md §7 C01",
-    technique="trace validation: real SnapPolygon calls on lattice polygons recorded and judged by TLC against SnapTrace.tla (ValidPolygon antecedent and NoCrossing over all returned edge pairs, exact integer orientation tests)",
+    technique="trace validation: real SnapPolygon calls on lattice polygons recorded and judged by TLC against SnapTrace.tla (ValidPolygon antecedent and NoCrossing over all returned edge pairs, exact integer orientation tests); Dedupe.tla: kmpDeduplicate transcribed, TLC-checked on every label sequence, each replayed through the real function (DedupeTrace.tla)",
     text="Every returned edge pair of every tile matrix of thousands (quick) to >10^5 (thorough) real calls on valid, tie-rich polygons is tested for a proper crossing by TLC; validity of the input is itself a TLA+ predicate. A failing record is re-executed against the current code before it is reported.",
     note=SNAPNOTE)
 CHECKS["C04"] = dict(
@@ -37,7 +37,7 @@ CHECKS["C04"] = dict(
     note=SNAPNOTE + " Edge clause sampled at end points and mid points of output edges.")
 CHECKS["C05"] = dict(
     category="model_checking", design_ref="DESIGN.md §7 C05",
-    technique="trace validation against SnapTrace.tla: ring structure/orientation/collapse-policy invariant on every record, and the keep/no-keep relation between the two runs of each input (TLC decides which records pair up)",
+    technique="trace validation against SnapTrace.tla: ring structure/orientation/collapse-policy invariant on every record, and the keep/no-keep relation between the two runs of each input (TLC decides which records pair up); SplitRing.tla: splitRing transcribed (stack of partial rings, panic guard, classification), TLC-checked on every closed label sequence x hit-multiple set, each replayed through the real function (SplitRingTrace.tla)",
     text="Arbitrary (mostly invalid) vertex sequences and valid polygons are each snapped with keep-points-and-lines off and on and reverse toggled; TLC checks shell-first, orientation by sign of area (flipped under reverse), no repeated vertex, minimum size, no empty list, keys, and that the keep run equals the no-keep run followed by 1-2-vertex rings.",
     note=SNAPNOTE + " Real-grid float effects (finding F4) are checked by the real-grid part of the check.")
 CHECKS["C06"] = dict(
